@@ -228,6 +228,6 @@ Print Assumptions C11_no_ring_of_waiting_goroutines.
    as the writer's script). ---- *)
 From SigP Require GenOrderCheck GenOrderProofs.
 Theorem C11_code_registers_rotated_before_dropping_unrotated : forall r : GenOrderCheck.rule,
-  In r GenOrderProofs.c11_rules -> GenOrderCheck.rule_holds r.
+  In r GenOrderCheck.c11_rules -> GenOrderCheck.rule_holds r.
 Proof. exact GenOrderProofs.co_C11_rules_hold. Qed.
 Print Assumptions C11_code_registers_rotated_before_dropping_unrotated.
